@@ -528,6 +528,7 @@ def _unit_job(args):
         order = [n["name"] for n in u.decls if n.get("kind") == "FunctionDecl" and n.get("name") in u.funcs and not n["_included"]
                  and any(c.get("kind") == "CompoundStmt" for c in n.get("inner", []))]
         res["skel"] = [(name,) + ls.function(name) for name in order]
+        res["ctors"] = [name for name in order if any(isinstance(c, dict) and c.get("kind") == "ConstructorAttr" for c in u.funcs[name].get("inner", []))]
     return res
 
 
@@ -586,6 +587,9 @@ def tr_conc(run, objs=None):
     else:
         run.notes.append("tr_conc: src/tsrm.c is not part of the library sources")
     out.append("Definition tsrm_fns : list lkfn := [%s]." % "; ".join("lk_" + n for n in fn_names))
+    ctors = byrel[TSRM].get("ctors", []) if TSRM in byrel else []
+    out.append("(* functions of src/tsrm.c that carry __attribute__((constructor)) *)")
+    out.append("Definition constructors : list string := [%s]." % "; ".join(q(c) for c in ctors))
     run.write_gen("Gen_Conc.v", "\n".join(out) + "\n")
     # ---------------------------------------------------------------- Gen_Globals.v
     glob = {}    # (name, scope, file) -> record
